@@ -81,8 +81,10 @@ func c06Grammar(res *explore.Result, g *gram.Grammar, inputs [][]byte, verbose b
 		return
 	}
 	res.Add("grammars_explored", 1)
-	for _, named := range []bool{false, true} {
+	for variant := 0; variant < 3; variant++ {
+		named := variant > 0
 		gv := withNamed(g, named)
+		gv.NamedSeq = variant == 2 // third variant: the sequence-family combinators carry a Name as well
 		gs := gv.String()
 		b := impl.Build(gv, impl.Options{Letters: nlMap})
 		b.Mon.BudgetCalls, b.Mon.BudgetRes = budgetCalls, budgetResults
@@ -102,6 +104,10 @@ func c06Grammar(res *explore.Result, g *gram.Grammar, inputs [][]byte, verbose b
 				if gv.Named {
 					failed[attempt{"alt" + strconv.Itoa(e.ID), int(pos) - impl.Base}] = true
 				}
+			case gram.Seq, gram.SeqTry, gram.SeqFOA, gram.Many, gram.Many1, gram.SepBy, gram.SepBy1:
+				if gv.NamedSeq {
+					failed[attempt{"alt" + strconv.Itoa(e.ID), int(pos) - impl.Base}] = true
+				}
 			}
 		}
 		// the parser handed to Sentence: records where End will be tried
@@ -115,6 +121,7 @@ func c06Grammar(res *explore.Result, g *gram.Grammar, inputs [][]byte, verbose b
 		})
 		root := combinator.Sentence(rootP)
 		explosiveFrom := -1
+		var history []string
 		for _, w0 := range inputs {
 			if explosiveFrom >= 0 && len(w0) >= explosiveFrom {
 				res.Add("cases_skipped_after_meter_tripped", 1)
@@ -122,7 +129,8 @@ func c06Grammar(res *explore.Result, g *gram.Grammar, inputs [][]byte, verbose b
 			}
 			w := mapInput(w0)
 			n := len(w)
-			c := Case{Placement: impl.Placement, Prior: b.MemoBefore, Grammar: gs, Input: string(w0)}
+			c := Case{Placement: impl.Placement, Prior: b.MemoBefore, Grammar: gs, Input: string(w0), History: append([]string{}, history...)}
+			history = append(history, string(w0))
 			for k := range failed {
 				delete(failed, k)
 			}
@@ -154,6 +162,9 @@ func c06Grammar(res *explore.Result, g *gram.Grammar, inputs [][]byte, verbose b
 			mode := "unnamed"
 			if named {
 				mode = "named"
+			}
+			if gv.NamedSeq {
+				mode = "named+sequences"
 			}
 			where := fmt.Sprintf("%s on %q [%s]", gs, string(w), mode)
 			for _, e := range rootEnds {
@@ -245,8 +256,12 @@ func c06Replay(raw json.RawMessage) *explore.Result {
 		return res
 	}
 	res.Notes = append(res.Notes, "case: "+c.String()+" (terminal b is built as a line feed)")
-	g.Named = false
-	c06Grammar(res, g, [][]byte{[]byte(c.Input)}, true)
+	g.Named, g.NamedSeq = false, false
+	var inputs [][]byte
+	for _, h := range c.History {
+		inputs = append(inputs, []byte(h))
+	}
+	c06Grammar(res, g, append(inputs, []byte(c.Input)), true)
 	return res
 }
 
